@@ -96,7 +96,7 @@ def oracle_fault(case, res, sentinel: bool):
     message is a tie break (`wording_differs`), not a violation."""
     fails = []
     if res.get("timeout"):
-        return ["command did not terminate within 300 s"]
+        return ["command did not terminate (300 s, then 1500 s on a second attempt)"]
     if res["rc"] == 0:
         fails.append("exit status 0 although the workbook has a detected fault")
     if not problem_reported(res):
